@@ -198,6 +198,38 @@ def _first_byte_heuristic(raw, entry):
     return False
 
 
+def _nested_model(items, depth=0):
+    """What the recorded nested-parse finding does to a command list: a data item of unclassified length that is not
+    key / signature shaped and that is itself a well-formed script is replaced by the commands of that script
+    (recursively); everything else stays."""
+    from ref import wire
+    out = []
+    for it in items:
+        if isinstance(it, int) or depth > 6 or len(it) == 0 or _classify_len(len(it)) != 'unclassified' or \
+                _looks_like_keysig(it):
+            out.append(it)
+            continue
+        try:
+            inner = [(op if d is None else bytes(d)) for op, d in wire.script_iter(it)]
+        except ValueError:
+            out.append(it)
+            continue
+        # (opcode 0 is the empty push)
+        inner = [b'' if (not isinstance(x, bytes) and x == 0) else x for x in inner]
+        out.extend(_nested_model(inner, depth + 1))
+    return out
+
+
+def _flat(cmds):
+    out = []
+    for c in cmds:
+        if isinstance(c, list):
+            out.extend(_flat(c))
+        else:
+            out.append(c)
+    return out
+
+
 def check_script(ctx, case):
     from ref import wire
     _, scr = _lib()
@@ -241,11 +273,53 @@ def check_script(ctx, case):
     has_sigshape = any(d[:1] == b'\x30' and 69 <= len(d) <= 74 for d in datas)
     has_keyshape = any(_looks_like_keysig(d) and not (d[:1] == b'\x30') for d in datas)
 
-    def kf_for():
+    model = _nested_model(expected) if nested else None
+
+    def norm(cmds):
+        return [(b'' if (not isinstance(x, (bytes, bytearray)) and x == 0) else
+                 bytes(x) if isinstance(x, (bytes, bytearray)) else x) for x in _flat(cmds)]
+
+    def unfolded_in_place(cmds):
+        """The recorded nested-parse finding, as it shows in the command list: every opcode and every data item of a
+        classified length (or key / signature shape) is where and what it was; only data items of unclassified length
+        may have been replaced, in place, by a sub-list (what the library made of their bytes)."""
+        if len(cmds) != len(expected):
+            return False
+        hit = False
+        for got_, exp_ in zip(cmds, expected):
+            if isinstance(got_, list):
+                if isinstance(exp_, int) or _classify_len(len(exp_)) != 'unclassified' or _looks_like_keysig(exp_):
+                    return False
+                hit = True
+            elif isinstance(exp_, int) or isinstance(got_, int):
+                if got_ != exp_ and not (got_ == 0 and exp_ == b'') and not (exp_ == 0 and got_ == b''):
+                    return False
+            elif bytes(got_) != bytes(exp_):
+                return False
+        return hit
+
+    def kf_for(cmds=None, ser=None, raised=False, in_serialize=False):
         if heur:
             return 'C18-script-whole-blob-heuristic'
-        if nested:
+        if not nested:
+            return None
+        if raised:
+            # (serialising an unfolded command list fails: same root cause; a failing PARSE is not part of it)
+            return 'C18-script-nested-parse-of-data' if in_serialize and cmds is not None and \
+                unfolded_in_place(cmds) else None
+        if cmds is not None and (unfolded_in_place(cmds) or (len(expected) == 1 and norm(cmds) == norm(model))):
             return 'C18-script-nested-parse-of-data'
+        if cmds is not None and len(expected) == 1 and not isinstance(expected[0], int):
+            # a script that is ONE push of unclassified length: the library shows the tokens of the pushed bytes up to
+            # the point where they stop being a well-formed script
+            toks = []
+            try:
+                for op_, d_ in wire.script_iter(expected[0]):
+                    toks.append(op_ if d_ is None else bytes(d_))
+            except ValueError:
+                pass
+            if norm(cmds) == norm(toks):
+                return 'C18-script-nested-parse-of-data'
         return None
 
     try:
@@ -255,22 +329,22 @@ def check_script(ctx, case):
             ctx.refusal('script.strict.%s' % type(e).__name__)
             return
         ctx.disc('script.parse.raises', '%s(strict=%s) raised %r on %s' % (entry, strict, e, raw.hex()[:200]),
-                 case, kf=kf_for())
+                 case, kf=kf_for(raised=True))
         return
+    cmds = list(s.commands)
     try:
         ser = s.serialize()
     except Exception as e:
         ctx.disc('script.serialize.raises', 'serialize raised %r after parsing %s' % (e, raw.hex()[:200]), case,
-                 kf=kf_for())
+                 kf=kf_for(cmds, raised=True, in_serialize=True))
         return
     if ser != raw and not (raw != minimal and ser == minimal):
         ctx.disc('script.roundtrip.bytes', '%s: serialize()=%s want %s' % (entry, ser.hex()[:200], raw.hex()[:200]),
-                 case, kf=kf_for())
+                 case, kf=kf_for(cmds, ser))
         return
-    cmds = list(s.commands)
     if cmds != expected:
         ctx.disc('script.roundtrip.items', '%s: commands=%r want %r' % (entry, cmds[:8], expected[:8]), case,
-                 kf=kf_for())
+                 kf=kf_for(cmds))
 
 
 def check_script_build(ctx, case):
